@@ -1184,6 +1184,20 @@ TRACE_CONTRACTS = [
                        callbacks=[(r"add_done_callback$", done_callback_contract)]),
          clauses=_gather_clauses(),
          assumes=["Future.add_done_callback contract; callbacks run one at a time (the unsynchronised `done += 1` across worker threads is outside this family's reach)"]),
+    dict(id="threadpool.unwrap_future", target="py_gql.execution.runtime.threadpool:unwrap_future", props=["C08"],
+         config=Config(events=[(r"\.result$", lambda call, args, kwargs: "result:%s" % call.func.value.id if isinstance(call.func.value, __import__("ast").Name) else "result:?"),
+                               (r"outer\.set_result$", "set_result"), (r"outer\.set_exception$", "set_exception"), (r"outer\.cancel$", "cancel")],
+                       nothrow=[r"^_is_future_fast$", r"^Future$", r"outer\.(set_result|set_exception|cancel)$"],
+                       raises=[(r"\.result$", [Exception, __import__("concurrent.futures", fromlist=["CancelledError"]).CancelledError])],
+                       callbacks=[(r"add_done_callback$", done_callback_contract)]),
+         clauses=[("never-waits", "the only future whose result is read is the one the done-callback was called with (it is done): nothing blocks the thread that completes tasks",
+                   lambda p: None if not any(e.startswith("result:") for e in p.events) else all(e == "result:f" for e in p.events if e.startswith("result:"))),
+                  ("nested-futures-followed-by-callback", "a future resolving to another future is followed by registering the same callback on it, not by waiting",
+                   lambda p: None if "rec:cb" not in p.events else p.events.index("rec:cb") > 0),
+                  ("outer-settles-once-per-chain-end", "when the chain ends the outer future is settled exactly once by that callback",
+                   lambda p: None if "cb:done" not in p.events or "rec:cb" in p.events else (
+                       p.outcome == "return" and sum(count(p.events, e) for e in ("set_result", "set_exception", "cancel")) == 1))],
+         assumes=["Future.add_done_callback contract"]),
     dict(id="ThreadPoolRuntime.map_value", target="py_gql.execution.runtime.threadpool:ThreadPoolRuntime.map_value", props=["C08"],
          config=Config(events=[(r"^chain$", lambda call, args, kwargs: "chain(%s)" % ",".join(__import__("ast").unparse(a) for a in call.args))]),
          clauses=[("delegates-to-chain", "map_value is chain(value, then, else_)", lambda p: None if p.outcome != "return" else p.events == ("chain(value,then,else_)",))],
